@@ -243,6 +243,7 @@ def parseFilt (s : String) : Option Filt :=
   | ["A", "always"] => some (.attr .always)
   | ["A", "never"] => some (.attr .never)
   | ["A", "has", n] => some (.attr (.hasField n))
+  | ["A", "truthy", n] => some (.attr (.truthy n))
   | ["A", "lt", n, b] => some (.attr (.fieldLt n (parseInt b)))
   | "A" :: "eq" :: n :: rest => some (.attr (.fieldEq n (parseVal (":".intercalate rest))))
   | ["N", attrs] => some (.noneF (if attrs = "-" then [] else attrs.splitOn ","))
